@@ -62,9 +62,9 @@ OBLIGATIONS = [
     kani("c11_orient_sectors", ["C11", "C10"], "C11.orient.sectors", "bemodel::Orientation::from(f32)"),
     kani("c11_normalize_range", ["C11"], "C11.normalize", "bemodel::utils::normalize"),
     kani("c10_orientation_of_wall", ["C10", "C11"], "C10.wall", "Orientation::from(&Wall) / Tilt::from(&Wall)"),
-    kani("c11_poly_area_triangle", ["C11"], "C11.poly.area", "Polygon::area", bounded="3 vertices, every integer coordinate in [-100,100] (arithmetic exact)", timeout=900),
+    kani("c11_poly_area_triangle", ["C11"], "C11.poly.area", "Polygon::area", bounded="3 vertices, every integer coordinate in [-100,100] (arithmetic exact)", tier="thorough", timeout=3000),
     kani("c11_poly_degenerate", ["C11"], "C11.poly.degenerate", "Polygon::area / perimeter", bounded="0 and 1 vertex"),
-    kani("c13_aabb_slab_exact", ["C13"], "C13.aabb.slab.exact", "AABB::intersects", bounded="integer boxes / origins in [-20,20], direction components in {-1,0,1}: all products exact", timeout=900),
+    kani("c13_aabb_slab_exact", ["C13"], "C13.aabb.slab.exact", "AABB::intersects", bounded="integer boxes / origins in [-20,20], direction components in {-1,0,1}: all products exact", tier="thorough", timeout=3000),
     # ---- C06 leaves -----------------------------------------------------------------------------------
     kani("c06_fround2_contract", ["C06", "C07", "C08"], "C06.fround2", "bemodel::utils::fround2 (kani::requires/ensures, proof_for_contract)", timeout=600),
     kani("c06_fround3_contract", ["C06"], "C06.fround3", "bemodel::utils::fround3 (kani::requires/ensures, proof_for_contract)", tier="thorough", timeout=1800),
@@ -129,6 +129,7 @@ OBLIGATIONS = [
     native("n_c17_week_expand", ["C17"], "C17.week.expand", "ScheduleWeek::to_day_sch", RN + "n_c17_week_expand"),
     native("n_c17_year_expand", ["C17"], "C17.year.expand", "SchedulesDb::get_year_as_day_sch / year_values", RN + "n_c17_year_expand"),
     native("n_c17_occupancy", ["C17"], "C17.occupancy", "EnergyProps::from(&Model) (occ_spaces_hours_in_use, occ_spaces_average_load, loads_avg)", RN + "n_c17_occupancy"),
+    native("n_c03_conversion", ["C03"], "C03.conversion", "hulc::ctehexml::parse_with_catalog + Model::try_from (wall_geometry, windows_and_shades_from_bdl, shades_from_bdl, compute_wall_angle_with_space_north, Polygon::edge_vertices / edge_normal_to_y / mirror_y / rotate)", CV + "n_c03_conversion"),
     native("n_c17_convert_year", ["C17"], "C17.convert.year", "convert::schedules_from_bdl / day_of_year", CV + "n_c17_convert_year"),
     native("n_c17_convert_week_day", ["C17"], "C17.convert.week", "convert::schedules_from_bdl", CV + "n_c17_convert_week_day"),
     native("n_c14_seed_closed", ["C14"], "C14.seed", "Model::energy_indicators / EnergyIndicators::as_json", RN + "n_c14_seed_closed"),
@@ -141,6 +142,10 @@ OBLIGATIONS = [
     native("n_c06_ground", ["C06"], "C06.ground", "Wall::u_value (GROUND) / u_value_gnd_slab / u_value_gnd_wall / Space::slab_char_dim / slab_d_t / slab_psi_gnd_ext", TR + "n_c06_ground"),
     native("n_c07_wincons_value", ["C07"], "C07.u.value", "WinCons::u_value / g_glwi / g_glshwi", TR + "n_c07_wincons_value"),
     native("n_c07_defaults", ["C07"], "C07.defaults", "EnergyProps::from(&Model) (WinConsProps) / KData::from / QSolJulData::from", TR + "n_c07_defaults"),
+    native("n_c20_sun_position", ["C20"], "C20.sunpos", "climate::solar::altitude_sol_from_data / azimuth_sol_from_data / sun_position", "verif_climate::n::n_c20_sun_position", pkg="climate"),
+    native("n_c20_incidence", ["C20"], "C20.incidence", "climate::solar::angle_sol_surf", "verif_climate::n::n_c20_incidence", pkg="climate"),
+    native("n_c20_radiation_identities", ["C20"], "C20.radiation", "climate::radiation_for_surface", "verif_climate::n::n_c20_radiation_identities", pkg="climate"),
+    native("n_c20_weather_table", ["C20"], "C20.weather_table", "climate::period_radiation_for_surface / nday_from_ymd / MONTHLYRADDATA", EN + "n_c20_weather_table"),
     native("n_c20_tables", ["C20"], "C20.tables", "climatedata::{JULYRADDATA, MONTHLYRADDATA, CLIMATEMETADATA, ClimateZone}", EN + "n_c20_tables"),
     native("n_c09_n50", ["C09"], "C09.n50", "N50Data::from(&EnergyProps)", EN + "n_c09_n50"),
     native("n_c10_qsoljul", ["C10"], "C10.qsoljul", "QSolJulData::from(&EnergyProps, &HashMap<Orientation,f32>)", EN + "n_c10_qsoljul"),
